@@ -193,8 +193,15 @@ def _node_matches_argspec(node, func):
   # (dime10) replacement for tf_inspect.getfullargspec
   arg_spec = inspect.getfullargspec(func)
 
-  node_args = tuple(_arg_name(arg) for arg in node.args.args)
+  # Note: getfullargspec lists positional-only parameters as part of args.
+  node_args = tuple(
+      _arg_name(arg) for arg in node.args.posonlyargs + node.args.args)
   if node_args != tuple(arg_spec.args):
+    return False
+
+  code = getattr(func, '__code__', None)
+  if (code is not None and
+      len(node.args.posonlyargs) != code.co_posonlyargcount):
     return False
 
   if arg_spec.varargs != _arg_name(node.args.vararg):
